@@ -340,6 +340,30 @@ func cmdCheck(args []string) int {
 				structural = append(structural, r)
 			}
 		}
+		if inProp && ct.NotSpawned != "" {
+			if f := prog.funcs[k]; f != nil {
+				var sites []string
+				for key, fn := range prog.funcs {
+					for _, b := range fn.Blocks {
+						for _, in := range b.Instrs {
+							if gs, ok := in.(*ssa.Go); ok && gs.Call.StaticCallee() == f {
+								sites = append(sites, trimName(key)+" at "+prog.ssa.Fset.Position(gs.Pos()).String())
+							}
+						}
+					}
+				}
+				sort.Strings(sites)
+				o := &Obligation{Name: funcDisplayName(f) + ":structural.not-spawned", Kind: "structural", Func: funcDisplayName(f), Where: ct.Where, Expect: "unsat",
+					Text: "no go statement starts " + trimName(k) + ": " + ct.NotSpawned}
+				r := &oblResult{O: o, Q: "; decided by scanning the SSA of all loaded packages\n"}
+				if len(sites) == 0 {
+					r.Res = SolverResult{Status: "unsat", Solver: "kbv-callgraph-scan"}
+				} else {
+					r.Res = SolverResult{Status: "unknown", Solver: "kbv-callgraph-scan", Output: "started as a goroutine by: " + strings.Join(sites, ", ")}
+				}
+				structural = append(structural, r)
+			}
+		}
 		if !inProp || !ct.Uncalled {
 			continue
 		}
